@@ -266,3 +266,12 @@ func (s *Session) VerifUpdateStats() { s.updateStats() }
 
 // VerifInternal exposes the loop-owned torrent for in-package lab extensions.
 func (t *Torrent) VerifInternal() any { return t.torrent }
+
+// VerifResumeBitfield reads the bitfield persisted in the resume database for torrent id (nil if none).
+func (s *Session) VerifResumeBitfield(id string) []byte {
+	spec, err := s.resumer.Read(id)
+	if err != nil || spec == nil {
+		return nil
+	}
+	return spec.Bitfield
+}
